@@ -191,7 +191,9 @@ fn settings_menu(dst: u8, rich: bool) -> Vec<Setting> {
         Setting { rate: Some(1.2), od: Some((9.1, false)), ..Setting::nm() },
     ];
     // mods that switch skills or formulas off
-    v.push(Setting::bits(settings::RX));
+    if dst <= 1 {
+        v.push(Setting::bits(settings::RX));
+    }
     if dst == 0 {
         v.push(Setting::bits(settings::AP));
     }
